@@ -1671,6 +1671,38 @@ Definition v_api_rt (x : option api_rt) : val :=
   | Some (Rt4 tr s a l) => VL [VI 3; VB tr; VN s; VN a; VN l]
   end.
 
+(* wire encodings (Nlri::encode) of the three families *)
+Definition fs_op_bytes (o : N * N) : list N :=
+  let k := op_octets (snd o) in
+  let order := if k =? 1 then 0 else if k =? 2 then 1 else if k =? 4 then 2 else 3 in
+  (* bits | (order << 4): the length bits of [bits] are clear in every value the converters build *)
+  (fst o + order * 16) :: to_bytes (N.to_nat k) (snd o).
+
+Definition fs_comp_bytes (v6 : bool) (c : fs_comp) : list N :=
+  match c with
+  | FsPfx t a m off =>
+      t :: m :: (if v6 then [off] else []) ++ firstn (N.to_nat ((m + 7) / 8)) (to_bytes (if v6 then 16 else 4) a)
+  | FsOps t ops => t :: flat_map fs_op_bytes ops
+  end.
+
+Definition fs_encode (n : fs_nlri) : list N :=
+  match n with
+  | FsN v6 d comps =>
+      let body := (match d with Some d' => rd_bytes d' | None => [] end) ++ flat_map (fs_comp_bytes v6) comps in
+      let len := N.of_nat (length body) in
+      (if len <? 240 then [len] else [240 + len / 256; len mod 256]) ++ body
+  end.
+
+Definition srp_encode (n : srp) : list N :=
+  match n with SrP v6 d c e => (if v6 then 192 else 96) :: be32 d ++ be32 c ++ to_bytes (if v6 then 16 else 4) e end.
+
+Definition rtc_encode (n : rtc) : list N :=
+  match n with
+  | RtcWild => [0]
+  | RtcAs a => 32 :: be32 a
+  | RtcExact a rt => 96 :: be32 a ++ rt
+  end.
+
 (* kind 8, modelled families.  The observation compared is [accepted; decodes back; relisted; API form
    listed for the accepted value] (what the harness prints in positions 0, 3, 4, 5). *)
 Definition run_api_fs_case (family : N) (x : api_fs) : val :=
@@ -1678,7 +1710,7 @@ Definition run_api_fs_case (family : N) (x : api_fs) : val :=
   | None => VL [VI 0]
   | Some n =>
       let y := fs_to_api v6_print n in
-      VL [VI 1; VI 1; VI (match fs_from_api v6_parse family y with Some n' => 0 | None => 2 end); v_api_fs y]
+      VL [VI 1; VNs (fs_encode n); VI 1; VI (match fs_from_api v6_parse family y with Some n' => 0 | None => 2 end); v_api_fs y]
   end.
 
 Definition srp_family_ok (n : srp) (family : N) : bool :=
@@ -1690,7 +1722,7 @@ Definition run_api_srp_case (family : N) (x : api_srp) : val :=
   | Some n =>
       if negb (srp_family_ok n family) then VL [VI 0] else
       match srp_to_api n with
-      | ASrP l d c e => VL [VI 1; VI 1; VI 0; VL [VI 12; VN l; VN d; VN c; VNs e]]
+      | ASrP l d c e => VL [VI 1; VNs (srp_encode n); VI 1; VI 0; VL [VI 12; VN l; VN d; VN c; VNs e]]
       end
   end.
 
@@ -1701,7 +1733,7 @@ Definition run_api_rtc_case (family : N) (x : api_rtc) : val :=
       if negb (family =? 65668) then VL [VI 0] else
       match rtc_to_api n with
       | ARtc a rt =>
-          VL [VI 1; VI 1; VI (match rtc_from_api (rtc_to_api n) with Some n' => 0 | None => 2 end);
+          VL [VI 1; VNs (rtc_encode n); VI 1; VI (match rtc_from_api (rtc_to_api n) with Some n' => 0 | None => 2 end);
               VL [VI 13; VN a; v_api_rt rt]]
       end
   end.
